@@ -343,7 +343,9 @@ pub(crate) fn ct_array64_maybe_swap_with<const N: usize>(
     swap: Choice,
 ) {
     let mut tmp = [0; N];
-    let mask = swap.0.wrapping_neg(); // 0 | -1
+    // black_box: the optimizer must not learn that the mask is only ever 0 or -1,
+    // otherwise it is free to turn the masked operations below into a branch on the choice
+    let mask = core::hint::black_box(swap.0.wrapping_neg()); // 0 | -1
     for (xo, (xa, xb)) in tmp.iter_mut().zip(a.iter().zip(b.iter())) {
         *xo = (*xa ^ *xb) & mask; // 0 if mask is 0 or xa^xb
     }
@@ -362,7 +364,9 @@ pub(crate) fn ct_array32_maybe_swap_with<const N: usize>(
     swap: Choice,
 ) {
     let mut tmp = [0; N];
-    let mask = (swap.0 as u32).wrapping_neg(); // 0 | -1
+    // black_box: the optimizer must not learn that the mask is only ever 0 or -1,
+    // otherwise it is free to turn the masked operations below into a branch on the choice
+    let mask = core::hint::black_box((swap.0 as u32).wrapping_neg()); // 0 | -1
     for (xo, (xa, xb)) in tmp.iter_mut().zip(a.iter().zip(b.iter())) {
         *xo = (*xa ^ *xb) & (mask as i32); // 0 if mask is 0 or xa^xb
     }
@@ -377,7 +381,9 @@ pub(crate) fn ct_array32_maybe_swap_with<const N: usize>(
 #[allow(unused)]
 pub(crate) fn ct_array64_maybe_set<const N: usize>(a: &mut [u64; N], b: &[u64; N], swap: Choice) {
     let mut tmp = [0; N];
-    let mask = swap.0.wrapping_neg(); // 0 | -1
+    // black_box: the optimizer must not learn that the mask is only ever 0 or -1,
+    // otherwise it is free to turn the masked operations below into a branch on the choice
+    let mask = core::hint::black_box(swap.0.wrapping_neg()); // 0 | -1
     for (xo, (xa, xb)) in tmp.iter_mut().zip(a.iter().zip(b.iter())) {
         *xo = (*xa ^ *xb) & mask; // 0 if mask is 0 or xa^xb
     }
@@ -389,7 +395,9 @@ pub(crate) fn ct_array64_maybe_set<const N: usize>(a: &mut [u64; N], b: &[u64; N
 #[allow(unused)]
 pub(crate) fn ct_array32_maybe_set<const N: usize>(a: &mut [i32; N], b: &[i32; N], swap: Choice) {
     let mut tmp = [0; N];
-    let mask = (swap.0 as u32).wrapping_neg(); // 0 | -1
+    // black_box: the optimizer must not learn that the mask is only ever 0 or -1,
+    // otherwise it is free to turn the masked operations below into a branch on the choice
+    let mask = core::hint::black_box((swap.0 as u32).wrapping_neg()); // 0 | -1
     for (xo, (xa, xb)) in tmp.iter_mut().zip(a.iter().zip(b.iter())) {
         *xo = (*xa ^ *xb) & (mask as i32); // 0 if mask is 0 or xa^xb
     }
